@@ -247,8 +247,8 @@ def check_ratio_constants(repo, rep):
 
 def check_equity_sampling(repo, rep):
     rid = "C16-R3"
-    rep.rule(rid, "equity sampling protocol in both simulators: one initial sample before the loop, one per iteration under "
-                  "`i != 0 and i % 1440 == 0`, one final sample after all routes were terminated and market orders flushed; "
+    rep.rule(rid, "equity sampling protocol in both simulators: one initial sample before the loop, daily samples after the step's strategy "
+                  "executions and market-order flush (their number and timing: C16-R3b), one final sample after all routes were terminated and market orders flushed; "
                   "futures equity = wallet + sum of open positions' PnL, spot equity = cash + value of all positions + reserved value of the active "
                   "entry orders of every route (symbolic, Strategy.portfolio_value interpreted)")
     for sim in ("_step_simulator", "_skip_simulator"):
@@ -264,22 +264,14 @@ def check_equity_sampling(repo, rep):
             calls = [e for e in evs if e[0] == "call" and e[1] == "save_daily_portfolio_balance"]
             g = [e for e in evs if e[0] == "guard" and e[1] == "daily"]
             taken = any(x[2] for x in g)
-            if len(calls) != (1 if taken else 0):
+            if g and len(calls) != (1 if taken else 0):
                 rep.violation(rid, f"{sim}|daily", f"{sim}: {len(calls)} equity samples in an iteration where the daily guard is {'true' if taken else 'false'}")
             if calls:
                 last_exec = max([i for i, e in enumerate(evs) if e[0] == "call" and e[1] in ("_execute", "execute_pending_market_orders")], default=-1)
                 if evs.index(calls[0]) < last_exec:
                     rep.violation(rid, f"{sim}|daily-order", f"{sim}: the daily equity sample is taken before the step's strategy executions / market-order flush")
             rep.instance(rid, f"{sim}|iter|{len(calls)}|{taken}")
-        # guard text
-        fnn = repo.func(SL.BT, sim)
-        guards = [n for n in ast.walk(fnn) if isinstance(n, ast.If) and "1440" in norm(n.test)]
-        for gnode in guards:
-            parts = sorted(norm(v) for v in (gnode.test.values if isinstance(gnode.test, ast.BoolOp) else [gnode.test]))
-            if parts != sorted(["i != 0", "i % 1440 == 0"]):
-                rep.violation(rid, f"{sim}|daily-guard", f"{sim}: daily sampling guard is `{norm(gnode.test)}`, expected `i != 0 and i % 1440 == 0`")
-        if not guards:
-            rep.violation(rid, f"{sim}|daily-guard", f"{sim}: no daily sampling guard found")
+        # (when the samples are taken is decided by interpreting the time loops: C16-R3b)
         for evs in view["post"]:
             names = [e[1] for e in evs if e[0] == "call"]
             if "_terminate" in names:
@@ -352,13 +344,78 @@ def check_equity_sampling(repo, rep):
     rep.floor(rid, 8)
 
 
+def check_equity_sample_times(repo, rep):
+    rid = "C16-R3b"
+    rep.rule(rid, "one equity sample per simulated day: the time loop of each simulator is interpreted for concrete session lengths and "
+                  "steps (callees recorded, no symbols): the samples taken inside the loop correspond one to one to the day boundaries "
+                  "b = 1440k, 0 < b < length, and the sample of boundary b is taken at the end of a step that ends in [b, b + 1440) - "
+                  "also when a fast-mode step is a whole day or several days long")
+    import ast as _ast
+    from vlib.absint import Frame
+    configs = {"_step_simulator": [(2880, 1), (4330, 1)],
+               "_skip_simulator": [(2880, 5), (4330, 5), (4330, 45), (2880, 720), (2880, 1440), (4320, 1440), (5770, 1440), (12960, 4320), (20170, 10080)]}
+    for sim, cfgs in configs.items():
+        fn = repo.func(SL.BT, sim)
+        loops = [n for n in _ast.walk(fn) if isinstance(n, _ast.For) and SL.loop_id(n) == "time"]
+        if len(loops) != 1:
+            raise AnalysisError(f"{sim}: expected one time loop, found {len(loops)}")
+        loop = loops[0]
+        for length, step in cfgs:
+            cur = {"end": None}
+            samples = []
+            stubs = W.base_stubs()
+
+            def rec_exec(it, a, k, cur=cur):
+                cur["end"] = int(a[0].const_value()) + int(a[1].const_value())
+
+            def rec_prog(it, a, k, cur=cur, sim=sim):
+                if sim == "_step_simulator":
+                    cur["end"] = int(a[2].const_value()) + 1
+                return None
+            stubs[f"{SL.BT}:_execute_routes"] = rec_exec
+            stubs[f"{SL.BT}:_update_progress_bar"] = rec_prog
+            stubs[f"{SL.BT}:_simulate_new_candles"] = lambda it, a, k: None
+            stubs[f"{SL.BT}:_execute_market_orders"] = lambda it, a, k: None
+            stubs[f"{MODES_UTILS}:save_daily_portfolio_balance"] = lambda it, a, k, cur=cur, samples=samples: samples.append(cur["end"])
+            stubs[f"{SL.BT}:save_daily_portfolio_balance"] = stubs[f"{MODES_UTILS}:save_daily_portfolio_balance"]
+            it = Interp(repo, stubs=stubs)
+            app = Obj("AppState", name="store.app", attrs={}, open_world=True)
+            it.overrides[f"{W.STORE}:store"] = Obj("StoreClass", name="store", attrs={"app": app}, open_world=True)
+            it.overrides["jesse/routes/__init__.py:router"] = Obj("RouterClass", name="router", attrs={"routes": []}, open_world=True)
+            fcs = Obj("Candles", name="first_candles_set", attrs={"__getitem__": BoundBuiltin(lambda i, a, k: Arr([num(0)]))})
+            fr = Frame(repo.module(SL.BT), {"length": num(length), "candles_step": num(step), "candles": {}, "progressbar": Unknown("pb"),
+                                           "run_silently": True, "last_update_time": None, "first_candles_set": fcs})
+            try:
+                it.exec(loop, fr)
+            except NotInFragment as e:
+                raise AnalysisError(f"{sim} time loop not interpretable: {e}")
+            bounds = list(range(1440, length, 1440))
+            bad = kind = None
+            if len(samples) != len(bounds):
+                bad, kind = f"{len(samples)} samples inside the loop for {len(bounds)} completed days", "daily-count"
+            else:
+                for b, t in zip(bounds, samples):
+                    if t is None or not (b <= t < b + 1440):
+                        bad = f"the sample of the day ending at minute {b} is taken at minute {t}"
+                        # a step longer than a day cannot observe the equity at the day boundaries inside it
+                        kind = "daily-time|step-longer-than-a-day" if step > 1440 and t is not None and b <= t < b + step else "daily-time"
+                        break
+            if bad:
+                rep.violation(rid, f"{sim}|{kind}", f"{sim} with a session of {length} minutes and a step of {step}: {bad} (sample minutes {samples[:6]}{'...' if len(samples) > 6 else ''})")
+            rep.instance(rid, f"{sim}|{length}|{step}", {"length": length, "step": step, "sample_minutes": samples[:8]})
+    rep.floor(rid, 10)
+
+
 def run(repo: Repo, rep, tier: str):
     rep.exhaustive = True
     rep.assume("pandas is modelled for the operations metrics.trades uses (from_records, column selection, boolean row selection, len/sum/mean/min/max/to_numpy)")
     rep.guarded(check_trades, repo, rep, tier)
     rep.guarded(check_ratio_constants, repo, rep)
     rep.guarded(check_equity_sampling, repo, rep)
-    rep.undecided_item("max drawdown / CAGR / Sharpe / Sortino / Calmar / Omega formulas on the daily return series (pandas pipeline not modelled); non-positivity of max drawdown")
+    rep.guarded(check_equity_sample_times, repo, rep)
+    from props.c16_ratios import check_ratio_formulas
+    rep.guarded(check_ratio_formulas, repo, rep, tier)
+    rep.undecided_item("ratio helpers on return series longer than 3 (4 in the thorough tier) days and their degenerate conventions (zero deviation, no losing day)")
     rep.undecided_item("spot equity: that Position.value / Order.value are the market value of the held base / the reserved quote (the sum over routes is decided)")
 
 
